@@ -4,5 +4,5 @@
 TIER=${1:-thorough}
 for d in /verif/selftest/benign/*/; do
   echo "== $(basename $d)"
-  /verif/tools/runall.sh $d/patch.diff $TIER
+  SMART=1 /verif/tools/runall.sh $d/patch.diff $TIER
 done
